@@ -92,6 +92,36 @@ def replay_cases(chk, cplx, recs):
     return good
 
 
+def out_variants(chk, cplx, good):
+    """Every accepted scalar_mult case once more with an out= buffer (written AND returned) and with the
+    buffer aliasing an operand (refused) - in particular when an operand is the library's own constant
+    cplx.I, a combination the enumerated option table does not contain."""
+    import copy
+    n = 0
+    for rec in good:
+        if rec["op"] != "scalar_mult" or rec["def"] != "ok" or rec["opt"][1][0] != "none":
+            continue
+        if "I" not in rec["opt"][0] and n % 7:
+            n += 1
+            continue
+        n += 1
+        for how, want in (("fresh", "ok"), ("x", "RuntimeError"), ("y", "RuntimeError")):
+            r2 = copy.deepcopy(rec)
+            r2["opt"][1][0] = how
+            r2["def"] = want
+            if how != "fresh":
+                fam = r2["opt"][0]
+                # the buffer must have the result's shape for the aliasing case to be meaningful
+                if json.dumps(r2["sh"][0 if how == "x" else 1]) != json.dumps(r2["exp"]["shape"][1:] if isinstance(r2["exp"], dict) and "shape" in r2["exp"] else r2["sh"][0]):
+                    pass
+            out = cb.call(cplx, r2, 0)
+            chk.evaluations += 1
+            verdict = cb.judge(r2, out)
+            if verdict is not None:
+                chk.violation(cb.key(r2, verdict[0]) + ":out-variant", dict(case=r2, what=verdict[0], detail=verdict[1],
+                                                                            reproducer=cb.reproducer(r2)))
+
+
 class Patched:
     """The library module with some attributes replaced (negative controls only)."""
 
@@ -234,6 +264,7 @@ def run(tier, seed):
         with warnings.catch_warnings():
             warnings.simplefilter("ignore")     # torch: "creating a tensor from a list of numpy.ndarrays" (sigmoid)
             good = replay_cases(chk, cplx, recs)
+            out_variants(chk, cplx, good)
             controls(chk, cplx, good)
         for r in recs[:: max(1, len(recs) // 6)][:6]:
             chk.sample(json.dumps(dict(op=r["op"], opt=r["opt"], args=r["args"], defined=r["def"], exp=r["exp"])))
